@@ -139,6 +139,23 @@ def samefid_cells(start_id):
     return cells
 
 
+def racy_progress(s, repeats):
+    """C16: requests that look a fresh name up at the same moment (walks released from the backend together)
+    are all answered.  Returns (cells run, [(cell, what)] for every cell with an unanswered request)."""
+    cells = racy_cells(0, repeats)
+    cfile = os.path.join(s, "racy-cells.json")
+    json.dump(cells, open(cfile, "w"))
+    results, _ = run_pairs(s, cfile, "120ms", tag="racy")
+    byid = {c["id"]: c for c in cells}
+    stuck = []
+    for r_ in results:
+        if r_.get("err") and ("no Rwalk" in r_["err"] or "did not meet" in r_["err"]):
+            stuck.append((byid[r_["id"]], "the two walks to the fresh name were not both answered (" + r_["err"] + ")"))
+        elif r_.get("hang"):
+            stuck.append((byid[r_["id"]], "requests %s / %s were not both answered" % (byid[r_["id"]]["a"]["op"], byid[r_["id"]]["b"]["op"])))
+    return len(results), stuck
+
+
 def run(prop, tier, seed, rule):
     t0 = time.time()
     verdict = vlib.Verdict(prop)
